@@ -679,6 +679,9 @@ def c07Node (n : Node) : Option (String × String) :=
         if isIdentName key then none else some ("invalid-property-key", s!"unquoted object key {key}")
       | .mk .call ("syn" :: _) (.mk .ident (nm :: "e" :: _) _ :: _) =>
         if nm.toList.any Text.isUnicodeWs then some ("multi-word-callee", nm) else none
+      | .mk .member _ [_, .mk .ident (pn :: "n" :: _) _] =>
+        -- `a.b-c` prints as a subtraction: a property that is not an identifier name has to be computed
+        if pn != "" && !isIdentName pn then some ("invalid-member-property", s!"member property {pn} written as an identifier") else none
       | _ => none
 
 def oracleC07 (outN : Node) (diags : List String) : Verdict :=
